@@ -12,9 +12,9 @@ for M in "$OUT"/m*; do
       F=$(grep "^+++ b/.*tests/.*\.rs" "$DEMO" | head -1 | sed 's#.*/tests/\(.*\)\.rs#\1#'); PKG=$(grep "^+++ b/.*tests/.*\.rs" "$DEMO" | head -1 | sed 's#^+++ b/\(.*\)/tests/.*#\1#' | xargs basename)
       TESTCMD="cargo test -p $PKG --offline -j 8 --test $F"
   elif grep -q "^+++ b/ffi/rodbus-ffi" "$DEMO"; then
-      TESTCMD="cargo test -p rodbus-ffi --offline -j 8 --lib seeded_demo"
+      TESTCMD="cargo test -p rodbus-ffi --offline -j 8 --lib seeded"
   else
-      TESTCMD="cargo test -p rodbus --offline -j 8 --lib seeded_demo"
+      TESTCMD="cargo test -p rodbus --offline -j 8 --lib seeded"
   fi
   git apply "$M/patch.diff" || { echo "CONFIRM $ID $(basename $M): patch does not apply"; continue; }
   cargo test --workspace --offline -j 8 >/tmp/seeded-out3/$ID/$(basename $M).suite.log 2>&1; S=$?
